@@ -526,6 +526,7 @@ def run(ctx):
     for j, c in enumerate(corpus):
         s = Scenario("c%d" % j, c["kind"], c["args"].replace("$IMG", str(imgs.get(c.get("image", "gzip"), imgs["gzip"]))).replace("$TMP", str(ctx.scratch)), c["model_kind"])
         s.lines, s.mlines, s.pairs, s.copy_at, s.failcopy = c["lines"], c["mlines"], [tuple(p) for p in c["pairs"]], c["copy_at"], c.get("failcopy")
+        s.fixed_shape = c.get("shape")
         scs.insert(j, s)
     ctx.log("%d scenarios (%d corpus), harness built; running" % (len(scs), len(corpus)))
     hres = run_harness(ctx, harness, scs)
@@ -556,19 +557,21 @@ def run(ctx):
     for s, (hans, hexit) in zip(allsc, allres):
         pl = next((l for l in hans if l.startswith("copy ok")), None)
         probe = parse_probe(pl) if pl else getattr(s, "base_probe", None)
-        shapes.append(shape_of(probe) if probe else "shape - - -")
+        shapes.append(shape_of(probe) if probe else (getattr(s, "fixed_shape", None) or "shape - - -"))
     var = {n: run_model(ctx, mode, allsc, shapes) for n, mode in VARIANTS}
     # allocation-failure variants: the k-th real allocation corresponds to *some* failing step of the hook's model
     # (one model step may stand for several real allocations), so the model is run for every failing step j and the
     # real outcome must be explained by one of them
-    if fscs:
-        fsh = shapes[len(scs):]
+    fidx = [i for i, s in enumerate(allsc) if s.failcopy]
+    if fidx:
+        fsc = [allsc[i] for i in fidx]
+        fsh = [shapes[i] for i in fidx]
         for n, mode in VARIANTS:
-            alts = [run_model(ctx, mode, fscs, fsh, fail_at=j) for j in range(1, 9)]
-            for i, (s, hr) in enumerate(zip(fscs, fres)):
+            alts = [run_model(ctx, mode, fsc, fsh, fail_at=j) for j in range(1, 9)]
+            for k, i in enumerate(fidx):
                 for a in alts:
-                    if compare(s, hr, a[i])[0]:
-                        var[n][len(scs) + i] = a[i]
+                    if compare(allsc[i], allres[i], a[k])[0]:
+                        var[n][i] = a[k]
                         break
     stats = {"outcomes": {}, "kinds": {}, "findings": {}}
     nviol = 0
